@@ -269,3 +269,7 @@ func FireTimerN(i int) bool { time.Sleep(50 * time.Millisecond); return false }
 // Released reports whether the library has returned the message to its pool
 // (VM ledger; natively unknown).
 func Released(m interface{}) bool { return false }
+
+// AssertVM is an assertion about something only the VM can observe (allocation
+// accounting, goroutine census, ledger): checked in the VM, a no-op natively.
+func AssertVM(c bool, label string) {}
